@@ -253,6 +253,8 @@ def _run(case):
         for l, c in zip(labels, conds):
             groups.setdefault(l, []).append(c)
         for site, cl in groups.items():
+            if twin and site not in ('sum', 'moments', 'centroid'):
+                continue     # twins only need the cheap linear sites
             r, m = ctx.holds(z3.And(cl), site)
             if r == 'sat':
                 ctx.find(f'stats:{site}', f'ApertureStats.{site} differs '
